@@ -275,7 +275,7 @@ func peekFacts(b *ssa.BasicBlock, z string) []Fact {
 			}
 			if nonzero {
 				x := linOf(call.Call.Args[1])
-				out = append(out, Fact{L: linAtom("len(" + z + ".buf)").add(linConst(2), -1).add(linAtom(z+".pos"), -1).add(x, -1)})
+				out = append(out, Fact{L: linAtom("len("+z+".buf)").add(linConst(2), -1).add(linAtom(z+".pos"), -1).add(x, -1)})
 			}
 		}
 	}
@@ -304,7 +304,7 @@ func runPeekRune(r *core.Run) {
 			if m == "PeekRune" {
 				argPos = linAtom(fn.Params[1].Name())
 			}
-			last := linAtom("len(" + z + ".buf)").add(linConst(1), -1) // index of the sentinel
+			last := linAtom("len("+z+".buf)").add(linConst(1), -1) // index of the sentinel
 			for _, b := range fn.Blocks {
 				fs := peekFacts(b, z)
 				for _, in := range b.Instrs {
